@@ -20,6 +20,7 @@ impl VClone for Expr { #[verifier::external_body] fn vclone(&self) -> (r: Self) 
 #[verifier::external_body] pub fn vars_used_in_expr(e: &Expr) -> (r: HashSet<String>) { unimplemented!() }
 #[verifier::external_body] pub fn add_uses_expr(live: &mut HashSet<String>, e: &Expr) { unimplemented!() }
 #[verifier::external_body] pub fn assigned_vars_in_block(b: &Block) -> (r: HashSet<String>) { unimplemented!() }
+#[verifier::external_body] pub fn free_vars_in_block(b: &Block) -> (r: HashSet<String>) { unimplemented!() }
 #[verifier::external_body] pub fn underscore() -> (r: String) ensures r@ == "_"@ { unimplemented!() }          // "_".to_string()
 #[verifier::external_body]
 pub fn vec_reverse<T>(v: &mut Vec<T>) ensures final(v)@ == old(v)@.reverse() { unimplemented!() }             // <[T]>::reverse
